@@ -79,6 +79,12 @@ FLAVOURS = {
              "-DCMAKE_CXX_FLAGS=-O1 -g -fsanitize=address,bounds,signed-integer-overflow,integer-divide-by-zero,null,pointer-overflow,vla-bound,return,unreachable -fno-sanitize-recover=all -fno-omit-frame-pointer -D_GLIBCXX_ASSERTIONS",
              "-DCMAKE_C_FLAGS=-O1 -g -fsanitize=address",
              "-DCMAKE_EXE_LINKER_FLAGS=-fsanitize=address,undefined"],
+    # AddressSanitizer alone (the "asan" flavour also aborts on UBSan's signed-shift report in
+    # preprocess/base64.cc, which is C09's modelled 32-bit wrap, before b64filter does anything)
+    "asan_only": ["-DCMAKE_BUILD_TYPE=RelWithDebInfo",
+                  "-DCMAKE_CXX_FLAGS=-O1 -g -fsanitize=address -fno-omit-frame-pointer",
+                  "-DCMAKE_C_FLAGS=-O1 -g -fsanitize=address",
+                  "-DCMAKE_EXE_LINKER_FLAGS=-fsanitize=address"],
     "tsan": ["-DCMAKE_BUILD_TYPE=RelWithDebInfo",
              "-DCMAKE_CXX_FLAGS=-O1 -g -fsanitize=thread",
              "-DCMAKE_EXE_LINKER_FLAGS=-fsanitize=thread"],
@@ -767,3 +773,85 @@ def find_culprit(exe, lines, timeout=5, mem_mb=2048):
             return bad, st1, e1[-300:]
         lo = bad + 1
     return None
+
+
+def run_staged(argv, parts, pause=1.0, timeout=60, mem_mb=2048, env=None):
+    """Run a tool whose stdin arrives in several parts with a pause between them (a slow
+    producer): the tool's threads then catch up with each other at the part boundaries.
+    stdout/stderr go to temporary files so nothing can block.  Returns (status, stdout, stderr)."""
+    import signal
+    import tempfile
+    with tempfile.TemporaryFile() as fo, tempfile.TemporaryFile() as fe:
+        p = subprocess.Popen(argv, stdin=subprocess.PIPE, stdout=fo, stderr=fe, env=env, preexec_fn=_limits(mem_mb))
+        status = None
+        t_end = time.time() + timeout
+        try:
+            try:
+                for i, part in enumerate(parts):
+                    if i:
+                        time.sleep(pause)
+                    p.stdin.write(part)
+                    p.stdin.flush()
+                p.stdin.close()
+            except (BrokenPipeError, OSError):
+                pass                      # the tool died: its status tells
+            try:
+                status = p.wait(timeout=max(1, t_end - time.time()))
+            except subprocess.TimeoutExpired:
+                status = "timeout"
+        finally:
+            try:
+                os.killpg(p.pid, signal.SIGKILL)
+            except Exception:
+                pass
+            if status == "timeout":
+                p.wait()
+        fo.seek(0)
+        fe.seek(0)
+        return status, fo.read(), fe.read()
+
+
+# --------------------------------------------------------------------------
+# (added for C01/C18) independent MurmurHash64A reference and partial collisions: pairs of distinct lines
+# whose 64-bit hashes differ but agree in the low (or high) 32 bits -- a tool that silently truncates the
+# hash merges them; only full 64-bit collisions are excused by the properties.
+
+def murmur64a_py(data, seed):
+    M64 = (1 << 64) - 1
+    m = 0xc6a4a7935bd1e995
+    n = len(data)
+    h = (seed ^ (n * m)) & M64
+    nb = n // 8
+    for i in range(nb):
+        k = int.from_bytes(data[8 * i:8 * i + 8], "little")
+        k = (k * m) & M64
+        k ^= k >> 47
+        k = (k * m) & M64
+        h ^= k
+        h = (h * m) & M64
+    t = data[8 * nb:]
+    if t:
+        h ^= int.from_bytes(t, "little")
+        h = (h * m) & M64
+    h ^= h >> 47
+    h = (h * m) & M64
+    h ^= h >> 47
+    return h
+
+
+def murmur_partial_collisions(count=250000, seed=1, prefix=b"ref line ", want=3):
+    """{'low32': [(a, b), ...], 'high32': [...]} among the lines prefix + decimal index"""
+    out = {"low32": [], "high32": []}
+    lo, hi = {}, {}
+    for i in range(count):
+        l = prefix + b"%d" % i
+        h = murmur64a_py(l, seed)
+        for name, tab, k in (("low32", lo, h & 0xffffffff), ("high32", hi, h >> 32)):
+            if k in tab and tab[k][1] != h:
+                if len(out[name]) < want:
+                    out[name].append((tab[k][0], l))
+            else:
+                tab[k] = (l, h)
+        if len(out["low32"]) >= want and len(out["high32"]) >= want:
+            break
+    return out
